@@ -278,7 +278,7 @@ def check_table(ctx, kind, z, table, queries, case, f11=False, fine=False):
                          {"pair": kind + "." + z, "query": [i, v], "class": c, "impl": val, "model": cands, "row": row})
         # oracle
         e = tab.expect(i, abs(v)) if not f11 else ("eq", abs(float(table[z][0][table["io"].index(-i if -i in table["io"] else i)])))
-        trig = {"abs_io_not_increasing": True, "dim": 1} if f11 else {}
+        trig = {"abs_io_not_increasing": True, "dim": 1} if f11 else ({"fine_step": True, "dim": 2} if fine else {})
         clause = {"knot": "knot_exact", "line_x": "linear_on_grid_line", "line_y": "linear_on_grid_line",
                   "cell": "range_in_cell"}.get(c, "clamped_outside")
         if e[0] == "eq":
@@ -365,6 +365,10 @@ FINE_WITNESSES = [
     ("linreg", "ig", {"vi": [2.075, 5.115], "io": [0.12703, 1.1307, 1.13244, 1.8365, 1.8731, 1.9457],
                       "ig": [[0.05303, 0.08741, 0.09697, 0.04409, 0.05634, 0.03143],
                              [0.06799, 0.07987, 0.04015, 0.04122, 0.09567, 0.01179]]}),
+    # second symptom of the same defect: a finite but wrong value (the entry of the last vi row) at the knot (0.16271 A, 2.799 V)
+    ("pswitch", "ig", {"vi": [2.799, 3.911, 5.478], "io": [0.16271, 0.59073, 0.86135, 0.8621446, 1.6585],
+                       "ig": [[0.03899, 0.07239, 0.05387, 0.02863, 0.03669], [0.0747, 0.09232, 0.03798, 0.01623, 0.03074],
+                              [0.06378, 0.02266, 0.0223, 0.08845, 0.0125]]}),
 ]
 
 
